@@ -2,6 +2,7 @@ package schema
 
 import (
 	"fmt"
+	"math"
 	"reflect"
 	"strconv"
 )
@@ -113,6 +114,12 @@ func (f FloatSchema) Serialize(d any) (any, error) {
 	data, err := asFloat(d)
 	if err != nil {
 		return data, err
+	}
+	if (f.MinValue != nil || f.MaxValue != nil) && math.IsNaN(data) {
+		// Every comparison with NaN is false, so NaN would pass both bound checks below.
+		return data, &ConstraintError{
+			Message: "NaN is not within the allowed range",
+		}
 	}
 	if f.MinValue != nil && data < *f.MinValue {
 		return data, &ConstraintError{
